@@ -117,15 +117,17 @@ def routes_correspondence(ck, gen_routes):
 
     def sym_snapshot_equal(a, b):
         return a == b
-    try:
-        sym = gen_routes.sym_table()
-    except Exception as e:          # noqa: BLE001  (the translator failed closed: already reported as a broken obligation)
-        ck.notes["routes_correspondence"] = "skipped: translator failed closed (%s)" % str(e)[:120]
-        return
     real = gen_routes.run_table(RealBackend(), read, lambda m: True, snapshot,
                                 lambda m, o: (m._odeList == [o] and m._eventList == [] and o._orig_state == "o" and o._equation == "r"),
                                 Exception)
+    try:
+        sym = gen_routes.sym_table()
+    except Exception as e:          # noqa: BLE001  (the translator failed closed: already reported as a broken obligation)
+        ck.notes["routes_correspondence"] = "interpreter side skipped: translator failed closed (%s)" % str(e)[:120]
+        sym = None
     diffs = []
+    if sym is None:
+        sym = dict(rows=[], reuse=real["reuse"], order=real["order"], ode_ok=real["ode_ok"], bad=real["bad"])
     for (n1, k1, o1), (n2, k2, o2) in zip(sym["rows"], real["rows"]):
         a = o1 if o1[0] == "Raised" else ("Stored", o1[1])
         b = o2 if o2[0] == "Raised" else ("Stored", o2[1])
@@ -135,7 +137,8 @@ def routes_correspondence(ck, gen_routes):
     for key in ("reuse", "order", "ode_ok", "bad"):
         if sym[key] != real[key]:
             diffs.append("%s: interpreter %s, running code %s" % (key, sym[key], real[key]))
-    ck.notes["routes_correspondence"] = dict(scenarios=len(sym["rows"]), refused_inputs=len(sym["bad"]), disagreements=len(diffs))
+    if not isinstance(ck.notes.get("routes_correspondence"), str):
+        ck.notes["routes_correspondence"] = dict(scenarios=len(sym["rows"]), refused_inputs=len(sym["bad"]), disagreements=len(diffs))
     if diffs:
         ck.broken.append(dict(theorem="correspondence: routes table (source run by gen/minipy.py) vs the running constructors / add_* methods",
                               file="c12 routes", error="; ".join(diffs)[:1500]))
